@@ -4,6 +4,7 @@ import (
 	"encoding/json"
 	"fmt"
 	"os"
+	"runtime/debug"
 	"sort"
 	"strconv"
 	"strings"
@@ -180,7 +181,14 @@ func execRun(t *testing.T, sc *Scenario, tape *simrt.Tape, seed, run uint64, tie
 							rc.Failf(sc.Prop+".stuck", "sequential:lock@"+rd.Site, "a call made while no other goroutine was running blocks for ever: the %s; an earlier call left the lock held (or this call takes it twice), so every later call on the object, Send included, never returns", rd.Error())
 							return
 						}
-						res.Infra = fmt.Sprintf("panic in scenario: %v", r)
+						st := string(debug.Stack())
+						if fr := panickingFrame(st); strings.HasPrefix(fr, "github.com/hashicorp/eventlogger") && !strings.Contains(fr, "/simrt.") {
+							// the panic was raised in (or by the Go runtime directly below) library code that the
+							// sequential part of the scenario called: the library panicked, not the harness
+							rc.Failf(sc.Prop+".panic", panicClass(fr+"\n"), "panic: %v\n%s", r, st)
+							return
+						}
+						res.Infra = fmt.Sprintf("panic in scenario: %v\n%s", r, st)
 					}
 				}()
 				sc.Run(rc)
@@ -278,6 +286,27 @@ func lockSites(sim *simrt.Sim) string {
 	}
 	sort.Strings(out)
 	return strings.Join(out, ",")
+}
+
+// panickingFrame returns the function line of the innermost non-runtime frame below the panic call
+// in a debug.Stack() dump taken inside a deferred recover.
+func panickingFrame(st string) string {
+	lines := strings.Split(st, "\n")
+	seen := false
+	for _, l := range lines {
+		if strings.HasPrefix(l, "\t") {
+			continue
+		}
+		if strings.HasPrefix(l, "panic(") {
+			seen = true
+			continue
+		}
+		if !seen || strings.HasPrefix(l, "runtime.") || strings.HasPrefix(l, "internal/") || strings.HasPrefix(l, "reflect.") {
+			continue
+		}
+		return l
+	}
+	return ""
 }
 
 func panicClass(p string) string {
